@@ -586,8 +586,26 @@ def run(chk):
             kreq_y.append({"op": "eval", "expr": e, "input": "a: %s\nb: %s\n" % (yaml_flow(a, True), yaml_flow(b, True)), "in": "yaml", "out": "json", "indent": 0})
     kj = impl_batch(kreq_j)
     ky = [evalgen.canon_impl(r) for r in vlib.yqh_parallel(kreq_y)]
-    for (e, _, _), rq, gj, gy in zip(kreq_j, kreq_y, kj, ky):
+    # the comparison is made on the defined region only: where a map of b meets a sequence of a under `+ ? n` (open region) the entries
+    # are addressed by index, and an !!int key 0x1F and the string "0x1F" are legitimately different things there
+    kflat = [(a, b, fl) for a, b in kpairs for fl in range(16)]
+    kmm, kerr = vlib.coq_mismatches(chk.workdir, "c04_numkeys", IMPORTS, "(fun c => merge_run (fst (fst c)) (snd (fst c)) (snd c))",
+                                    [("(%d, %s, %s)" % (fl, evalgen.coq_node(a), evalgen.coq_node(b)), kj[i]) for i, (a, b, fl) in enumerate(kflat)], shard=300)
+    if kerr:
+        broken.append("spec evaluation (number-like keys) failed: " + kerr[-600:])
+        kmm = []
+    kmodel = dict(kmm)
+    n_kopen = 0
+    for i, ((e, dj, _), rq, gj, gy) in enumerate(zip(kreq_j, kreq_y, kj, ky)):
+        if kmodel.get(i) == b"OPEN":
+            n_kopen += 1
+            chk.count(("numkey-open", e, rq["input"]), nontrivial=False)
+            continue
         chk.count(("numkey", e, rq["input"]), nontrivial=gj.startswith(b"OK"))
+        if i in kmodel and not kerr:
+            violate({"kind": "eval", "expr": e, "doc": json.loads(dj), "impl": gj.decode("utf-8", "replace"),
+                     "expect": kmodel[i].decode("utf-8", "replace") if isinstance(kmodel[i], bytes) else repr(kmodel[i])},
+                    "`%s` differs from the documented merge (Spec/MergeSpec.v merge)" % e)
         if gj != gy:
             violate({"kind": "yamljson", "expr": e, "yaml": rq["input"], "impl": gy.decode("utf-8", "replace"), "expect": gj.decode("utf-8", "replace")},
                     "%s on unquoted number-like YAML keys differs from the same merge with string keys" % e)
@@ -647,7 +665,7 @@ def run(chk):
         if got.startswith(b"OK") and any(x + b"\n" != want[3:] for x in res):
             violate({"kind": "eval", "expr": e, "doc": {"a": a, "b": b}, "impl": got.decode("utf-8", "replace"), "expect": want.decode("utf-8", "replace")},
                     "evaluating a merge whose operand reads a missing path changed the document: " + e)
-    chk.extra["extra_oracles"] = {"number_key_pairs_x16": len(kreq_j), "derived_rhs_cases_x16": len(dreq1), "readonly_operand_probes": len(roreq),
+    chk.extra["extra_oracles"] = {"number_key_pairs_x16": len(kreq_j), "number_key_open_region_skipped": n_kopen, "derived_rhs_cases_x16": len(dreq1), "readonly_operand_probes": len(roreq),
                                    "readonly_operand_probes_ok": sum(1 for g in ro if g.startswith(b"OK"))}
 
     # ---- recorded findings: exact inputs, still reproducing?
